@@ -1,4 +1,5 @@
 import NeumannModel.Graph.Spec
+import NeumannModel.Graph.Traverse
 import NeumannModel.Graph.ConcOps
 import NeumannModel.Graph.Atomic
 /-
@@ -94,6 +95,31 @@ theorem degree_spec (m : KV) (h : WF m) (n : Nat) (hn : nodeEx m n = true) (lo l
   have e2 : (inL m n).length = li.length :=
     length_eq_of_nodup_mem (h.in_nodup n) hli (fun a => by rw [mem_inL_iff h, hi])
   simp [outDegree, inDegree, degree, hn, e1, e2]
+
+
+/-- `traverse(start, direction, max_depth, edge_type)` returns exactly the nodes that can be reached
+    from `start` in at most `max_depth` hops along existing edges of that type in that direction
+    (`Within`; an undirected edge can be walked from either end, `start` itself is included),
+    ascending and without repetition. -/
+theorem traverse_spec (m : KV) (h : WF m) (start : Nat) (dir : Dir) (depth : Nat) (ty : Option Nat)
+    (hs : nodeEx m start = true) :
+    ∃ l, traverse m start dir depth ty = some l ∧ l.Pairwise (· < ·) ∧
+      ∀ x, x ∈ l ↔ Within m dir ty start depth x :=
+  traverse_char h start dir depth ty hs
+
+theorem traverse_missing_node (m : KV) (start : Nat) (dir : Dir) (depth : Nat) (ty : Option Nat)
+    (hs : nodeEx m start = false) : traverse m start dir depth ty = none := by
+  simp [traverse, hs]
+
+/-- a chain 1 → 2 → 3 with an undirected edge 3 — 4: two hops from 1 reach {1,2,3}, three hops reach 4;
+    against the direction only the undirected edge can be walked -/
+def chainS : St := applyAll St.empty [.createNode 0 0, .createNode 0 0, .createNode 0 0, .createNode 0 0,
+  .createEdge 1 2 true 0 0, .createEdge 2 3 true 0 0, .createEdge 4 3 false 0 0]
+
+example : WF chainS.kv ∧ traverse chainS.kv 1 .outgoing 2 none = some [1, 2, 3] ∧
+    traverse chainS.kv 1 .outgoing 3 none = some [1, 2, 3, 4] ∧
+    traverse chainS.kv 3 .outgoing 5 none = some [3, 4] :=
+  ⟨wf_of_any_history _, by decide, by decide, by decide⟩
 
 example : WF twoNodesEdgeS.kv ∧ neighbors twoNodesEdgeS.kv 1 .outgoing none = some [2] ∧
     degree twoNodesEdgeS.kv 1 = some 1 :=
